@@ -228,6 +228,7 @@ contract('info.MultiKeyInfo.add_valueinfo', params={'vi': VI, 'key': 'Opt[str]'}
                   Clause("implies(self.name != '+', is_alt(self._default, 'lst') and "
                          "alt(self._default, 'lst') == alt(old(self._default), 'lst') + [vi])", carries='C10',
                          label='default-appended-in-document-order')])
+SINGLE = "self.name != '+' and not (self.maxOccurs > 1)"
 contract('info.BaseKeyInfo.adddefault',
          params={'value': 'str', 'position': POSN, 'key': ('Opt[str]', 'None')},
          requires=[Clause('key_default_shape(self)', label='defaults-have-the-shape-of-the-kind-of-key')],
@@ -235,14 +236,18 @@ contract('info.BaseKeyInfo.adddefault',
          ensures=[Clause('key_default_shape(self)', label='defaults-keep-the-shape-of-the-kind-of-key'),
                   Clause('key_kinds_ok(self, self._default)', label='defaults-stay-collected-values'),
                   Clause("not self._finished and (self.name == '+') == (key is not None)", carries='C10',
-                         label='defaults-keyed-exactly-when-the-key-is-a-wildcard')],
+                         label='defaults-keyed-exactly-when-the-key-is-a-wildcard'),
+                  Clause("implies(%s, is_alt(self._default, 'vi') and alt(self._default, 'vi').value == value and "
+                         "alt(self._default, 'vi').position == position)" % SINGLE, carries='C02,C10',
+                         label='the-default-of-a-single-key-is-exactly-the-given-text-also-the-empty-one')],
          raises=[Raise('ZConfig.SchemaError', carries='C10',
                        label='finished-or-keying-mismatch-or-duplicate')],
          notes='dispatches to add_valueinfo of the subclass (interface contract below)')
 contract('info.BaseKeyInfo.add_valueinfo', params={'vi': VI, 'key': 'Opt[str]'},
          requires=[Clause("(self.name == '+') == (key is not None)", label='keyed-iff-wildcard'),
                    Clause('key_default_shape(self)')],
-         modifies=['self._default'], ensures=[Clause('key_default_shape(self)'), Clause('key_kinds_ok(self, self._default)')],
+         modifies=['self._default'], ensures=[Clause('key_default_shape(self)'), Clause('key_kinds_ok(self, self._default)'),
+                                              Clause("implies(%s, is_alt(self._default, 'vi') and alt(self._default, 'vi') == vi)" % SINGLE)],
          raises=[Raise('ZConfig.SchemaError', carries='C10', label='duplicate')],
          assumed=True, notes='abstract method: interface of KeyInfo.add_valueinfo / MultiKeyInfo.add_valueinfo (both proved)')
 
